@@ -104,11 +104,11 @@ impl Binder {
         plan = self.egraph.add(Node::Filter([where_, plan]));
         let mut to_rewrite = [projection, distinct, having, orderby];
         plan = self.plan_agg(&mut to_rewrite, groupby, plan)?;
-        let [mut projection, distinct, mut having, orderby] = to_rewrite;
+        let [mut projection, distinct, mut having, mut orderby] = to_rewrite;
         self.plan_apply(&mut having, &mut plan);
         plan = self.egraph.add(Node::Filter([having, plan]));
         plan = self.plan_window(projection, distinct, orderby, plan)?;
-        plan = self.plan_distinct(distinct, orderby, &mut projection, plan)?;
+        plan = self.plan_distinct(distinct, &mut orderby, &mut projection, plan)?;
         plan = self.egraph.add(Node::Order([orderby, plan]));
         plan = self.egraph.add(Node::Proj([projection, plan]));
         Ok(plan)
@@ -310,7 +310,7 @@ impl Binder {
     fn plan_distinct(
         &mut self,
         distinct: Id,
-        orderby: Id,
+        orderby: &mut Id,
         projection: &mut Id,
         plan: Id,
     ) -> Result {
@@ -319,7 +319,7 @@ impl Binder {
             return Ok(plan);
         }
         // make sure all ORDER BY items are in DISTINCT list.
-        for id in self.node(orderby).as_list() {
+        for id in self.node(*orderby).as_list() {
             // id = key or (desc key)
             let key = match self.node(*id) {
                 Node::Desc(id) => id,
@@ -337,8 +337,23 @@ impl Binder {
             if !distinct_on.contains(id) {
                 *id = self.egraph.add(Node::First(*id));
                 aggs.push(*id);
+            } else {
+                // The aggregation outputs the key expression as a whole: refer to it, so that
+                // column pruning does not take it for a use of the columns inside it.
+                *id = self.wrap_ref(*id);
             }
         }
+        let mut keys = self.node(*orderby).as_list().to_vec();
+        for id in &mut keys {
+            *id = match self.node(*id).clone() {
+                Node::Desc(key) => {
+                    let key = self.wrap_ref(key);
+                    self.egraph.add(Node::Desc(key))
+                }
+                _ => self.wrap_ref(*id),
+            };
+        }
+        *orderby = self.egraph.add(Node::List(keys.into()));
         let aggs = self.egraph.add(Node::List(aggs.into()));
         *projection = self.egraph.add(Node::List(projs.into()));
         Ok(self.egraph.add(Node::HashAgg([distinct, aggs, plan])))
